@@ -93,88 +93,113 @@ def reader_table(L, base_name, items, facts):
     return True, " . ".join(det)
 
 
-def run(ctx):
-    # =================== adss::Share ===========================================================================
-    SH = "adss::Share"
-    iA, iS, iC, iD, iJ = (fidx(ctx, SH, n) for n in ("A", "S", "C", "D", "J"))
-    eng, ret, st, fr = ctx.root("adss::Share::to_bytes")
-    at = ctx.fn("adss::Share::to_bytes").loc
-    wt = classify_writer(Q.parts_of(ret)) if ret is not None else []
-    def src(t):
-        return sorted(Q.params(Q.leaves(t))) if is_t(t) else None
-    wtab = [(k, src(t)) for k, t in wt]
-    want_w = [("fixed4", ["self.%d.0" % iA]), ("lp", None), ("lp", ["self.%d" % iC]), ("lp", ["self.%d" % iD]), ("raw", ["self.%d" % iJ])]
-    okw = len(wtab) == 5 and all(a[0] == b[0] and (b[1] is None or a[1] == b[1]) for a, b in zip(wtab, want_w)) and \
-        wtab[1][1] and all(p.startswith("self.%d" % iS) for p in wtab[1][1])
-    ctx.add("C08.R1", "adss::Share::to_bytes#chunk-table", okw,
-            "writer must emit threshold(4) . len|S . len|C . len|D . J ; found %s" % wtab, at, sample=wtab)
-    eng, ret, st, fr = ctx.root("adss::Share::from_bytes")
-    at = ctx.fn("adss::Share::from_bytes").loc
-    some = Q.variant(ret, 1)
-    if some is None or some[2][0].op != "agg":
-        ctx.add("C08.R1", "adss::Share::from_bytes#some", False, "reader has no Some(Share) aggregate", at)
-    else:
-        sh = some[2][0]
-        fs = Q.facts_of_variant(eng, ret, 1) or set()
-        L = lin.Ctx()
-        A = sh.args[1 + iA]
-        a_w = Q.find_all(A, lambda t: t.op == "int_of")
-        # S: the window handed to the Shamir decoder
-        tf = [e for e in Q.calls(eng, "TryFrom<&[u8]>>::try_from") if e["frame"] == fr.key]
-        s_w = tf[0]["argv"][0] if tf else None
-        items = [("A", "fixed4", a_w[0].args[0] if a_w else None), ("S", "lp", s_w), ("C", "lp", sh.args[1 + iC]),
-                 ("D", "lp", sh.args[1 + iD]), ("J", "rest64", sh.args[1 + iJ])]
-        ok, det = reader_table(L, "bytes", items, fs)
-        ctx.add("C08.R1", "adss::Share::from_bytes#chunk-table", ok,
-                "reader windows must tile the input as threshold(4) . len|S . len|C . len|D . exact 64-byte remainder: %s" % det, at, sample=det)
-        okA = bool(a_w) and a_w[0].args[1] == "u32" and a_w[0].args[2] == "le"
-        ctx.add("C08.R2", "adss::Share::from_bytes#threshold-le-u32", okA, "the threshold must be decoded as a little-endian u32", at)
-        # S decoded by the Shamir decoder from its chunk; C/D copied verbatim
-        okS = bool(tf) and sh.args[1 + iS].op == "agg"
-        ctx.add("C08.R1", "adss::Share::from_bytes#S-through-shamir-decoder", okS, "S must be decoded by star_sharks::Share::try_from from its chunk", at)
+def writer_entails_reader(ctx, rule, key, L, base_name, items, facts, mins, at, exact_end=True):
+    """every linear acceptance condition of the reader (facts on its Some/Ok path that mention only the input length and
+    the top-level length headers) must be entailed by the writer's model: header k = length of chunk k >= mins[k],
+    the encoding ends after the last chunk.  A reader guard that excludes some honest encoding is reported."""
+    base_len = None
+    hdrs = {}
+    cur = None
+    rest_eqs = []
+    for fname, kind, w in items:
+        win = lin.window(w) if w is not None else None
+        if win is None:
+            return
+        base, lo, hi = win
+        if base_len is None:
+            base_len = L.lin(mk("len", base))
+        llo, lhi = L.lin(lo), L.lin(hi)
+        if kind == "lp":
+            ln = lhi.add(llo, -1)
+            if len(ln.t) == 1 and ln.c == 0:
+                hdrs[list(ln.t)[0]] = fname
+        if kind.startswith("rest"):
+            d = lhi.add(llo, -1).add(lin.Lin(int(kind[4:])), -1)
+            rest_eqs += [d, d.scale(-1)]
+        cur = lhi
+    allowed = set(hdrs) | set(base_len.t)
+    cons = list(L.constraints()) + rest_eqs
+    for a, fname in hdrs.items():
+        cons.append(lin.Lin(mins.get(fname, 0)).add(lin.atom(a), -1))      # min - hdr <= 0
+    if exact_end and cur is not None:
+        d = base_len.add(cur, -1)
+        cons += [d, d.scale(-1)]
+    neg = {"lt": "ge", "le": "gt", "gt": "le", "ge": "lt", "eq": "ne", "ne": "eq"}
+    checked, bad = 0, []
+    for t, rel, v in sorted(facts, key=lambda f: str(f[0].id)):
+        if rel != "eq" or v not in (0, 1) or t.op not in ("lt", "le", "gt", "ge", "eq", "ne") or len(t.args) != 2:
+            continue
+        d = L.lin(t.args[0]).add(L.lin(t.args[1]), -1)
+        if not d.t or not set(d.t) <= allowed:
+            continue
+        o = t.op if v == 1 else neg[t.op]
+        no = neg[o]            # the relation that must be impossible for honest encodings
+        alts = {"lt": [[d.add(lin.Lin(1))]], "le": [[d]], "gt": [[d.scale(-1).add(lin.Lin(1))]], "ge": [[d.scale(-1)]],
+                "eq": [[d, d.scale(-1)]], "ne": [[d.add(lin.Lin(1))], [d.scale(-1).add(lin.Lin(1))]]}[no]
+        checked += 1
+        if not all(lin.infeasible(cons + alt) for alt in alts):
+            bad.append("%s is %s" % (S(t, 4), bool(v)))
+    ctx.add(rule, key, not bad and checked > 0,
+            "every length condition the reader requires must hold for every encoding the writer emits (chunk minimum lengths %s); "
+            "%d condition(s) checked, not entailed: %s" % (mins, checked, bad[:3]), at,
+            sample={"conditions_checked": checked, "writer_min_lengths": mins})
 
-    # =================== sta_rs::Message ============================================================================
+
+def min_len(parts):
+    """least number of bytes a writer's part list can produce"""
+    n = 0
+    for p in parts:
+        if p[0] == "part":
+            t = p[1]
+            if is_t(t) and t.op == "bytes_of":
+                n += int(t.args[1])
+        elif p[0] == "alt":
+            n += min(min_len(a) for a in p[1])
+    return n
+
+
+def honest_chunk_minimums(ctx):
+    """minimum lengths of the chunks an honest client emits, read off the writers"""
+    from .c15 import const_value
+    fe = const_value(ctx, "star_sharks::share_ff::FIELD_ELEMENT_LEN")
+    mac = const_value(ctx, "adss::MAC_LENGTH")
+    acc = const_value(ctx, "adss::ACCESS_STRUCTURE_LENGTH")
+    eng, ret, st, fr = ctx.root("sta_rs::Message::generate")
+    cn = Q.calls(eng, "sta_rs::Ciphertext::new")
+    ct = min(min_len(Q.parts_of(e["argv"][1])) for e in cn) if cn else 0
+    share = (acc or 0) + (4 + (fe or 0)) + 4 + 4 + (mac or 0)
+    return {"ciphertext": ct, "share": share, "tag": 0, "S": fe or 0, "C": 0, "D": 0}
+
+
+def message_reader_accepts_honest(ctx, rule):
     M = "sta_rs::Message"
     ic, ish, itg = (fidx(ctx, M, n) for n in ("ciphertext", "share", "tag"))
-    eng, ret, st, fr = ctx.root("sta_rs::Message::to_bytes")
-    at = ctx.fn("sta_rs::Message::to_bytes").loc
-    wt = classify_writer(Q.parts_of(ret)) if ret is not None else []
-    wtab = [(k, src(t)) for k, t in wt]
-    okw = [k for k, _ in wtab] == ["lp", "lp", "lp"] and all(p.startswith("self.%d" % ic) for p in wtab[0][1]) and \
-        all(p.startswith("self.%d" % ish) for p in wtab[1][1]) and wtab[2][1] == ["self.%d" % itg]
-    ctx.add("C08.R1", "sta_rs::Message::to_bytes#chunk-table", okw, "writer must emit len|ciphertext . len|share . len|tag; found %s" % wtab, at, sample=wtab)
     eng, ret, st, fr = ctx.root("sta_rs::Message::from_bytes")
     at = ctx.fn("sta_rs::Message::from_bytes").loc
     some = Q.variant(ret, 1)
+    key = "sta_rs::Message::from_bytes#accepts-every-honest-encoding"
     if some is None or some[2][0].op != "agg":
-        ctx.add("C08.R1", "sta_rs::Message::from_bytes#some", False, "reader has no Some(Message) aggregate", at)
-    else:
-        m = some[2][0]
-        fs = Q.facts_of_variant(eng, ret, 1) or set()
-        L = lin.Ctx()
-        ct = m.args[1 + ic]
-        ctw = ct.args[1] if ct.op == "agg" else ct
-        sb = [e for e in Q.calls(eng, "sta_rs::Share::from_bytes") if e["frame"] == fr.key]
-        items = [("ciphertext", "lp", ctw), ("share", "lp", sb[0]["argv"][0] if sb else None), ("tag", "lp", m.args[1 + itg])]
-        ok, det = reader_table(L, "bytes", items, fs)
-        ctx.add("C08.R1", "sta_rs::Message::from_bytes#chunk-table", ok,
-                "reader windows must tile the input as len|ciphertext . len|share . len|tag: %s" % det, at, sample=det)
+        ctx.add(rule, key, False, "reader has no Some(Message) aggregate", at)
+        return
+    m = some[2][0]
+    fs = Q.facts_of_variant(eng, ret, 1) or set()
+    L = lin.Ctx()
+    ct = m.args[1 + ic]
+    ctw = ct.args[1] if ct.op == "agg" else ct
+    sb = [e for e in Q.calls(eng, "sta_rs::Share::from_bytes") if e["frame"] == fr.key]
+    items = [("ciphertext", "lp", ctw), ("share", "lp", sb[0]["argv"][0] if sb else None), ("tag", "lp", m.args[1 + itg])]
+    ok, det = reader_table(L, "bytes", items, fs)
+    if not ok:
+        ctx.add(rule, key, False, "reader windows do not tile the input: %s" % det, at)
+        return
+    writer_entails_reader(ctx, rule, key, L, "bytes", items, fs, honest_chunk_minimums(ctx), at)
 
-    # =================== star_sharks::Share ===========================================================================
+
+def shamir_reader_rules(ctx, R1, R3):
+    """the Shamir share decoder takes x and every y from complete, consecutive 24-byte windows through the canonical
+    decoder and refuses non-canonical elements (shared: C08.R1/R3, C05.R6)"""
     SS = "star_sharks::share_ff::Share"
     ix, iy = fidx(ctx, SS, "x"), fidx(ctx, SS, "y")
-    wroot = "star_sharks::share_ff::<impl std::convert::From<&share_ff::Share> for std::vec::Vec<u8>>::from"
-    eng, ret, st, fr = ctx.root(wroot)
-    at = ctx.fn(wroot).loc
-    parts = Q.parts_of(ret) if ret is not None else []
-    okw = len(parts) == 2 and all(p[0] == "part" for p in parts)
-    if okw:
-        xs, ys = parts[0][1], parts[1][1]
-        okw = Q.contains(xs, lambda t: t.op == "fp_to_repr" and Q.path_of(t.args[0]) == "s.%d" % ix) and \
-            ys.op == "fold" and Q.contains(ys, lambda t: t.op == "fp_to_repr") and \
-            all(p.startswith("s.%d" % iy) for p in Q.params(Q.leaves(ys)))
-    ctx.add("C08.R1", wroot.split("::<impl")[0] + "::Share->Vec<u8>#chunk-table", okw,
-            "writer must emit repr(x) followed by the concatenation of repr(y_i) in order; found %s" % [S(p[1], 3) for p in parts], at)
     rroot = "star_sharks::<share_ff::Share as std::convert::TryFrom<&[u8]>>::try_from"
     eng, ret, st, fr = ctx.root(rroot)
     at = ctx.fn(rroot).loc
@@ -225,7 +250,7 @@ def run(ctx):
         valid = [t for t, rel, v in fs if t.op == "ct_valid" and rel == "eq" and v == 1]
         needx = any(t.args[0].op == "fp_from_repr" and xw and Q.contains(t.args[0], lambda z: z is xw[0]) for t in valid)
         ely = Q.find_all(yel, lambda t: t.op == "fp_from_repr") if yel is not None else []
-        ctx.add("C08.R3", rroot + "#x-must-be-canonical", needx, "Ok must require the x element to be in range (from_repr valid)", at)
+        ctx.add(R3, rroot + "#x-must-be-canonical", needx, "Ok must require the x element to be in range (from_repr valid)", at)
         # the y element pushed is ct_value of a from_repr whose validity dominated the push
         pushes = [e for e in Q.calls(eng, "::push") if e["frame"] == fr.key]
         oky_valid = False
@@ -235,11 +260,101 @@ def run(ctx):
             fr_ = Q.find_all(el, lambda t: t.op == "fp_from_repr")
             if fr_ and any(t.op == "ct_valid" and rel == "eq" and v == 1 and Q.contains(t, lambda z: z is fr_[0]) for t, rel, v in f_p):
                 oky_valid = True
-        ctx.add("C08.R3", rroot + "#every-y-must-be-canonical", oky_valid and len(pushes) == 1,
+        ctx.add(R3, rroot + "#every-y-must-be-canonical", oky_valid and len(pushes) == 1,
                 "every y element stored must have passed the from_repr validity test (an out-of-range element must reject the share)", at)
-    ctx.add("C08.R1", rroot + "#chunk-table", okr, "reader must take x from bytes [0,24) and y_i from [24+24i, 48+24i), i < (len-24)/24: %s" % det, at, sample=det)
+    ctx.add(R1, rroot + "#chunk-table", okr, "reader must take x from bytes [0,24) and y_i from [24+24i, 48+24i), i < (len-24)/24: %s" % det, at, sample=det)
     short = any(t.op == "lt" and rel == "eq" and v == 0 and t.args[0].op == "len" and t.args[1].op == "int" and t.args[1].args[0] == 24 for t, rel, v in fs)
-    ctx.add("C08.R3", rroot + "#refuses-short-input", short, "Ok must require len >= 24", at)
+    ctx.add(R3, rroot + "#refuses-short-input", short, "Ok must require len >= 24", at)
+
+
+
+def run(ctx):
+    # =================== adss::Share ===========================================================================
+    SH = "adss::Share"
+    iA, iS, iC, iD, iJ = (fidx(ctx, SH, n) for n in ("A", "S", "C", "D", "J"))
+    eng, ret, st, fr = ctx.root("adss::Share::to_bytes")
+    at = ctx.fn("adss::Share::to_bytes").loc
+    wt = classify_writer(Q.parts_of(ret)) if ret is not None else []
+    def src(t):
+        return sorted(Q.params(Q.leaves(t))) if is_t(t) else None
+    wtab = [(k, src(t)) for k, t in wt]
+    want_w = [("fixed4", ["self.%d.0" % iA]), ("lp", None), ("lp", ["self.%d" % iC]), ("lp", ["self.%d" % iD]), ("raw", ["self.%d" % iJ])]
+    okw = len(wtab) == 5 and all(a[0] == b[0] and (b[1] is None or a[1] == b[1]) for a, b in zip(wtab, want_w)) and \
+        wtab[1][1] and all(p.startswith("self.%d" % iS) for p in wtab[1][1])
+    ctx.add("C08.R1", "adss::Share::to_bytes#chunk-table", okw,
+            "writer must emit threshold(4) . len|S . len|C . len|D . J ; found %s" % wtab, at, sample=wtab)
+    eng, ret, st, fr = ctx.root("adss::Share::from_bytes")
+    at = ctx.fn("adss::Share::from_bytes").loc
+    some = Q.variant(ret, 1)
+    if some is None or some[2][0].op != "agg":
+        ctx.add("C08.R1", "adss::Share::from_bytes#some", False, "reader has no Some(Share) aggregate", at)
+    else:
+        sh = some[2][0]
+        fs = Q.facts_of_variant(eng, ret, 1) or set()
+        L = lin.Ctx()
+        A = sh.args[1 + iA]
+        a_w = Q.find_all(A, lambda t: t.op == "int_of")
+        # S: the window handed to the Shamir decoder
+        tf = [e for e in Q.calls(eng, "TryFrom<&[u8]>>::try_from") if e["frame"] == fr.key]
+        s_w = tf[0]["argv"][0] if tf else None
+        items = [("A", "fixed4", a_w[0].args[0] if a_w else None), ("S", "lp", s_w), ("C", "lp", sh.args[1 + iC]),
+                 ("D", "lp", sh.args[1 + iD]), ("J", "rest64", sh.args[1 + iJ])]
+        ok, det = reader_table(L, "bytes", items, fs)
+        ctx.add("C08.R1", "adss::Share::from_bytes#chunk-table", ok,
+                "reader windows must tile the input as threshold(4) . len|S . len|C . len|D . exact 64-byte remainder: %s" % det, at, sample=det)
+        if ok:
+            writer_entails_reader(ctx, "C08.R3", "adss::Share::from_bytes#accepts-every-honest-encoding", L, "bytes", items, fs,
+                                  honest_chunk_minimums(ctx), at)
+        okA = bool(a_w) and a_w[0].args[1] == "u32" and a_w[0].args[2] == "le"
+        ctx.add("C08.R2", "adss::Share::from_bytes#threshold-le-u32", okA, "the threshold must be decoded as a little-endian u32", at)
+        # S decoded by the Shamir decoder from its chunk; C/D copied verbatim
+        okS = bool(tf) and sh.args[1 + iS].op == "agg"
+        ctx.add("C08.R1", "adss::Share::from_bytes#S-through-shamir-decoder", okS, "S must be decoded by star_sharks::Share::try_from from its chunk", at)
+
+    # =================== sta_rs::Message ============================================================================
+    M = "sta_rs::Message"
+    ic, ish, itg = (fidx(ctx, M, n) for n in ("ciphertext", "share", "tag"))
+    eng, ret, st, fr = ctx.root("sta_rs::Message::to_bytes")
+    at = ctx.fn("sta_rs::Message::to_bytes").loc
+    wt = classify_writer(Q.parts_of(ret)) if ret is not None else []
+    wtab = [(k, src(t)) for k, t in wt]
+    okw = [k for k, _ in wtab] == ["lp", "lp", "lp"] and all(p.startswith("self.%d" % ic) for p in wtab[0][1]) and \
+        all(p.startswith("self.%d" % ish) for p in wtab[1][1]) and wtab[2][1] == ["self.%d" % itg]
+    ctx.add("C08.R1", "sta_rs::Message::to_bytes#chunk-table", okw, "writer must emit len|ciphertext . len|share . len|tag; found %s" % wtab, at, sample=wtab)
+    eng, ret, st, fr = ctx.root("sta_rs::Message::from_bytes")
+    at = ctx.fn("sta_rs::Message::from_bytes").loc
+    some = Q.variant(ret, 1)
+    if some is None or some[2][0].op != "agg":
+        ctx.add("C08.R1", "sta_rs::Message::from_bytes#some", False, "reader has no Some(Message) aggregate", at)
+    else:
+        m = some[2][0]
+        fs = Q.facts_of_variant(eng, ret, 1) or set()
+        L = lin.Ctx()
+        ct = m.args[1 + ic]
+        ctw = ct.args[1] if ct.op == "agg" else ct
+        sb = [e for e in Q.calls(eng, "sta_rs::Share::from_bytes") if e["frame"] == fr.key]
+        items = [("ciphertext", "lp", ctw), ("share", "lp", sb[0]["argv"][0] if sb else None), ("tag", "lp", m.args[1 + itg])]
+        ok, det = reader_table(L, "bytes", items, fs)
+        ctx.add("C08.R1", "sta_rs::Message::from_bytes#chunk-table", ok,
+                "reader windows must tile the input as len|ciphertext . len|share . len|tag: %s" % det, at, sample=det)
+    message_reader_accepts_honest(ctx, "C08.R3")
+
+    # =================== star_sharks::Share ===========================================================================
+    SS = "star_sharks::share_ff::Share"
+    ix, iy = fidx(ctx, SS, "x"), fidx(ctx, SS, "y")
+    wroot = "star_sharks::share_ff::<impl std::convert::From<&share_ff::Share> for std::vec::Vec<u8>>::from"
+    eng, ret, st, fr = ctx.root(wroot)
+    at = ctx.fn(wroot).loc
+    parts = Q.parts_of(ret) if ret is not None else []
+    okw = len(parts) == 2 and all(p[0] == "part" for p in parts)
+    if okw:
+        xs, ys = parts[0][1], parts[1][1]
+        okw = Q.contains(xs, lambda t: t.op == "fp_to_repr" and Q.path_of(t.args[0]) == "s.%d" % ix) and \
+            ys.op == "fold" and Q.contains(ys, lambda t: t.op == "fp_to_repr") and \
+            all(p.startswith("s.%d" % iy) for p in Q.params(Q.leaves(ys)))
+    ctx.add("C08.R1", wroot.split("::<impl")[0] + "::Share->Vec<u8>#chunk-table", okw,
+            "writer must emit repr(x) followed by the concatenation of repr(y_i) in order; found %s" % [S(p[1], 3) for p in parts], at)
+    shamir_reader_rules(ctx, "C08.R1", "C08.R3")
 
     # =================== R2 constants and helpers ===================================================================
     from .c15 import const_value
@@ -311,4 +426,4 @@ def run(ctx):
             "every None of load_bytes must be under a failed completeness test (%d None sites)" % cnt, at)
     ctx.floor("C08.R1", 7)
     ctx.floor("C08.R2", 7)
-    ctx.floor("C08.R3", 7)
+    ctx.floor("C08.R3", 9)
